@@ -233,7 +233,8 @@ def run_case(ctx, case):
         return None
 
     expect_fail = fail in ("truncated", "unreadable", "wrong_descr", "conflict", "save_fails") or \
-        (fail == "incomplete" and not case["allow_incomplete"])
+        (fail == "incomplete" and not case["allow_incomplete"]) or \
+        (fail == "incomplete" and not to_grow)       # nothing finished at all: even a partial reap has nothing to infer from
     if fail == "save_fails":
         fp.remaining = 1
     before = cropkit.tree_snapshot(loc)
